@@ -197,4 +197,61 @@ theorem feed_ts (c : Cfg) (toks : List Tok) : ∀ s : St, (feed c s toks).1.ts =
     | byte b => simp only [ih, stepTok, step_ts, tickSum]
     | tick d => simp only [ih, stepTok, tickSum, Int.add_assoc]
 
+/-! ## every frame is stamped with the clock at the byte that completes it (sysex: see `step_stamp`) -/
+
+theorem withinChan_stamp (s : St) (b : Nat) : ∀ f ∈ (withinChan s b).2, f.2 = s.ts := by
+  unfold withinChan
+  repeat' split
+  all_goals simp
+
+theorem syscStep_stamp (s : St) (b : Nat) : ∀ f ∈ (syscStep s b).2, f.2 = s.ts := by
+  unfold syscStep
+  repeat' split
+  all_goals simp
+
+theorem cleanState_stamp (s : St) (b : Nat) : ∀ f ∈ (cleanState s b).2, f.2 = s.ts := by
+  unfold cleanState
+  repeat' split
+  all_goals first | (simp; done) | exact withinChan_stamp _ _
+
+theorem sysexStep_stamp (c : Cfg) (s : St) (b : Nat) (hb : b ≠ 0xF7) : ∀ f ∈ (sysexStep c s b).2, f.2 = s.ts := by
+  by_cases e1 : b = 0xF0
+  · simp [sysexStep, e1]
+  by_cases e3 : 0x80 ≤ b
+  · have r : sysexStep c s b = cleanState { s with sx := [], mode := .clean } b := by
+      simp [sysexStep, e1, hb, e3]
+    rw [r]
+    exact cleanState_stamp _ b
+  by_cases e4 : c.sysex = true ∧ s.sx ≠ []
+  · by_cases e5 : s.sx.length < c.bufSize
+    · simp [sysexStep, e1, hb, e3, e4, e5]
+    · simp [sysexStep, e1, hb, e3, e4, e5]
+  · simp [sysexStep, e1, hb, e3, e4]
+
+/-- whatever a byte other than `F7` makes the reader hand over is stamped with the current clock -/
+theorem step_stamp (c : Cfg) (s : St) (b : Nat) (hb : b ≠ 0xF7) : ∀ f ∈ (step c s b).2, f.2 = s.ts := by
+  by_cases hrt : 0xF8 ≤ b
+  · simp [step, hrt]
+  by_cases hst : 0x80 ≤ b
+  · cases hm : s.mode with
+    | clean => simpa [step, hrt, hm] using cleanState_stamp s b
+    | unknown => simpa [step, hrt, hst, hm] using cleanState_stamp { s with mode := .clean } b
+    | sysex => simpa [step, hrt, hm] using sysexStep_stamp c s b hb
+    | chan => simpa [step, hrt, hst, hm] using cleanState_stamp { s with pend := none, mode := .clean } b
+    | sysc => simpa [step, hrt, hst, hm] using cleanState_stamp { s with pend := none, mode := .clean } b
+  · cases hm : s.mode with
+    | clean => simpa [step, hrt, hst, hm] using cleanState_stamp s b
+    | unknown => simp [step, hrt, hst, hm]
+    | sysex => simpa [step, hrt, hst, hm] using sysexStep_stamp c s b hb
+    | chan => simpa [step, hrt, hst, hm] using withinChan_stamp s b
+    | sysc => simpa [step, hrt, hst, hm] using syscStep_stamp s b
+
+theorem listenFrames_stamp (c : Cfg) (l : List Frame) (t : Int) (h : ∀ f ∈ l, f.2 = t) :
+    ∀ m ∈ listenFrames c l, m.2 = t := by
+  intro m hm
+  simp only [listenFrames, List.mem_filterMap, List.mem_filter, Option.map_eq_some_iff] at hm
+  obtain ⟨f, ⟨hf, _⟩, x, _, e⟩ := hm
+  rw [← e]
+  exact h f hf
+
 end Midi.LiveWire
